@@ -113,7 +113,7 @@ inductive NumSpelling where
   | num (q : Rat)        -- the plain decimal grammar `[+-] digits [. digits] [e [+-] digits]`, exact value
   | special              -- forms ParseFloat also accepts but the model does not evaluate (inf, nan, hex, `_`)
   | bad                  -- rejected by ParseFloat
-  deriving Repr
+  deriving Repr, DecidableEq
 
 def spanDigits : Bytes → Bytes × Bytes
   | [] => ([], [])
@@ -188,7 +188,8 @@ def convAnyAll : List GoVal → Res Cause (List GoVal)
   | [] => .ok []
   | x :: xs => (convAny x).bind fun a => (convAnyAll xs).bind fun as => .ok (a :: as)
 
-/-- `Range.AsArray` (after the D6 repair: empty when `e < b`) -/
+/-- `Range.AsArray` (after the D6 repair: empty when `e < b`; ranges longer than `maxRangeArrayLen` are
+rejected by `Convert` before) -/
 def rangeInts (a b : Int) : List GoVal :=
   (List.range (b + 1 - a).toNat).map fun (i : Nat) => GoVal.int .int (a + (i : Int))
 
@@ -226,7 +227,9 @@ def convert (v0 : GoVal) (t : ParamTy) : Res Cause GoVal :=
     | .slice .any xs => .ok (.slice .any xs)
     | .mapSlice kvs => .ok (.slice .any (kvs.map (·.2)))
     | .range a b =>
-      if b - a > 1000000 then .unmodelled "huge range" else .ok (.slice .any (rangeInts a b))
+      if b - a + 1 > 10000000 then .err .typeErr          -- maxRangeArrayLen: "range too large to convert to an array"
+      else if b - a > 1000000 then .unmodelled "range of more than a million items"
+      else .ok (.slice .any (rangeInts a b))
     | .slice _ xs => (convAnyAll xs).bind fun ys => .ok (.slice .any ys)
     | .array _ xs => (convAnyAll xs).bind fun ys => .ok (.slice .any ys)
     | .bytes s => .ok (.slice .any (s.map fun b => .int .u8 b.toNat))
